@@ -31,6 +31,8 @@ type Document struct {
 	parts map[string][]byte
 	// 图片ID计数器，确保每个图片都有唯一的ID
 	nextImageID int
+	// styles.xml 关系的ID（打开已有文档时保留其原有ID，默认为rId1）
+	stylesRelID string
 }
 
 // Body 表示文档主体
@@ -2935,12 +2937,48 @@ func (d *Document) serializeRelationships() {
 	d.parts["_rels/.rels"] = append([]byte(xml.Header), data...)
 }
 
+// stylesRelationshipID 返回styles.xml关系使用的ID（不与已有文档关系冲突）
+func (d *Document) stylesRelationshipID() string {
+	if d.stylesRelID == "" {
+		d.stylesRelID = "rId1"
+		for n := 1; d.documentRelationshipIDInUse(d.stylesRelID); n++ {
+			d.stylesRelID = fmt.Sprintf("rId%d", n)
+		}
+	}
+	return d.stylesRelID
+}
+
+// documentRelationshipIDInUse 判断文档关系ID是否已被使用
+func (d *Document) documentRelationshipIDInUse(id string) bool {
+	if d.documentRelationships == nil {
+		return false
+	}
+	for _, rel := range d.documentRelationships.Relationships {
+		if rel.ID == id {
+			return true
+		}
+	}
+	return false
+}
+
+// nextDocumentRelationshipID 生成一个未被使用的文档关系ID
+// 新建文档中依次为rId2、rId3……（rId1保留给styles.xml）
+func (d *Document) nextDocumentRelationshipID() string {
+	stylesID := d.stylesRelationshipID()
+	for n := len(d.documentRelationships.Relationships) + 2; ; n++ {
+		id := fmt.Sprintf("rId%d", n)
+		if id != stylesID && !d.documentRelationshipIDInUse(id) {
+			return id
+		}
+	}
+}
+
 // serializeDocumentRelationships 序列化文档关系
 func (d *Document) serializeDocumentRelationships() {
 	// 获取已存在的关系，从索引1开始（保留给styles.xml）
 	relationships := []Relationship{
 		{
-			ID:     "rId1",
+			ID:     d.stylesRelationshipID(),
 			Type:   "http://schemas.openxmlformats.org/officeDocument/2006/relationships/styles",
 			Target: "styles.xml",
 		},
@@ -3102,6 +3140,9 @@ func (d *Document) parseDocumentRelationships() error {
 	for _, rel := range relationships.Relationships {
 		if rel.Type != "http://schemas.openxmlformats.org/officeDocument/2006/relationships/styles" {
 			filteredRels = append(filteredRels, rel)
+		} else if d.stylesRelID == "" {
+			// 保留原文档中styles.xml关系的ID
+			d.stylesRelID = rel.ID
 		}
 	}
 
